@@ -88,6 +88,29 @@ def nontrivial(c):
     return any(ch in t for ch in '\n\r"#') or any(ord(ch) > 127 for ch in t)
 
 
+def bad_byte_cases(tier):
+    """invalid and TRUNCATED UTF-8 at every position of small inputs — in particular a lone lead byte after the final line
+    terminator and an input that is nothing but a truncated sequence: every partition of the stream and the bulk read must
+    fail with the decoding error (never drop the bytes silently)"""
+    bases = [b'', b'a,b\n', b'a,b\nc\n', b'a\r\n', b'"x\ny",z\n', b'h\xc3\xa9\n']
+    bads = [b'\xff', b'\x80', b'\xe4', b'\xe4\xb8', b'\xf0\x9f', b'\xc3']
+    out = []
+    for base in bases:
+        for bad in bads:
+            for pos in sorted(set([0, len(base)] + (list(range(len(base) + 1)) if tier != 'quick' or len(base) <= 4 else [1, len(base) - 1]))):
+                data = base[:pos] + bad + base[pos:]
+                if len(data) > 9:
+                    continue
+                try:
+                    data.decode('utf-8')
+                    continue
+                except UnicodeDecodeError:
+                    pass
+                for pol in ('quoted', 'quoted_rfc'):
+                    out.append(('all', pol, 'utf-8', False, 'n', ',', None, '', data))
+    return out
+
+
 def run(res, tier, seed):
     res.rule = RULE
     res.assumptions = ['util.TextDecoder with {stream:true} is a correct incremental UTF-8 decoder',
@@ -120,6 +143,20 @@ def run(res, tier, seed):
                                'model_says': b['model'][:2000], 'impl_says': b['got'][:2000],
                                'case_key': 'C20|' + line[:300], 'replay_cmd': './check C20 --replay <this file>'})
     res.count('disagreements', len(bad))
+    bb = bad_byte_cases(tier)
+    bl = [to_line(c) for c in bb]
+    outs = common.run_impl_js(bl)
+    res.evaluations += len(bl)
+    nbb = 0
+    for c, l, o in zip(bb, bl, outs):
+        res.nontrivial.add(('badbytes', c[1], c[8]))
+        if o != 'err decode':
+            nbb += 1
+            if nbb <= 3:
+                res.violations.append({'property': 'C20', 'impl': 'js', 'why': 'invalid / truncated UTF-8 must fail with the decoding error for the bulk read and for every partition of the stream',
+                                       'bytes': c[8].hex(), 'policy': c[1], 'line': l, 'model_says': 'err decode', 'impl_says': o[:500], 'case_key': 'C20|badbytes|' + c[1] + '|' + c[8].hex()})
+    res.count('bad_byte_cases', len(bl))
+    res.count('bad_byte_failures', nbb)
 
 
 def replay(res, path):
